@@ -872,7 +872,20 @@ func (c *Ctx) doAppend(st *State, fr *Frame, ins ssa.Instruction, call *ssa.Call
 		q, q, s.S, s.S, q, s.S, s.S, n.S, content.S, q, arr.S, s.S, q)))
 	c.SetArr(st, fam, Store(arr, resArr, content))
 	r := T(SSlice, "(mk_slice %s %s (+ (sl_len %s) %s) %s)", resArr.S, resOff.S, s.S, n.S, Ite(inplace, T(SInt, "(sl_cap %s)", s.S), newCap).S)
-	return c.Name(st, "append", r)
+	res := c.Name(st, "append", r)
+	// append(s, x1, ..., xk) with the elements written out: state where each of them ends up
+	// (ground instances of the quantified fact above; arithmetic in triggers matches badly)
+	if sx, ok := call.Args[1].(*ssa.Slice); ok && sx.Low == nil && sx.High == nil {
+		if pt, ok := sx.X.Type().Underlying().(*types.Pointer); ok {
+			if at, ok := pt.Elem().Underlying().(*types.Array); ok && at.Len() <= 8 {
+				st.Assume(T(SBool, "(= %s %d)", n.S, at.Len()))
+				for q := int64(0); q < at.Len(); q++ {
+					st.Assume(T(SBool, "(= (select %s (sidx %s (+ (sl_len %s) %d))) (select (select %s (sl_arr %s)) (sidx %s %d)))", content.S, res.S, s.S, q, arr.S, add.S, add.S, q))
+				}
+			}
+		}
+	}
+	return res
 }
 
 // ---------------------------------------------------------------------------
